@@ -226,6 +226,9 @@ func decryptKeyV3(keyProtected *encryptedKeyJSONV3, auth string) (keyBytes []byt
 	if err != nil {
 		return nil, nil, err
 	}
+	if len(iv) != aes.BlockSize {
+		return nil, nil, fmt.Errorf("invalid IV length: %d", len(iv))
+	}
 
 	cipherText, err := hex.DecodeString(keyProtected.Crypto.CipherText)
 	if err != nil {
@@ -260,6 +263,9 @@ func decryptKeyV1(keyProtected *encryptedKeyJSONV1, auth string) (keyBytes []byt
 	if err != nil {
 		return nil, nil, err
 	}
+	if len(iv) != aes.BlockSize {
+		return nil, nil, fmt.Errorf("invalid IV length: %d", len(iv))
+	}
 
 	cipherText, err := hex.DecodeString(keyProtected.Crypto.CipherText)
 	if err != nil {
@@ -283,23 +289,67 @@ func decryptKeyV1(keyProtected *encryptedKeyJSONV1, auth string) (keyBytes []byt
 	return plainText, keyId, err
 }
 
+// kdfParamString and kdfParamInt read a KDF parameter of a key file, which is untrusted input
+func kdfParamString(params map[string]interface{}, name string) (string, error) {
+	s, ok := params[name].(string)
+	if !ok {
+		return "", fmt.Errorf("missing or invalid KDF parameter %q", name)
+	}
+	return s, nil
+}
+
+func kdfParamInt(params map[string]interface{}, name string) (int, error) {
+	switch v := params[name].(type) {
+	case int:
+		return v, nil
+	case float64:
+		return int(v), nil
+	}
+	return 0, fmt.Errorf("missing or invalid KDF parameter %q", name)
+}
+
 func getKDFKey(cryptoJSON cryptoJSON, auth string) ([]byte, error) {
 	authArray := []byte(auth)
-	salt, err := hex.DecodeString(cryptoJSON.KDFParams["salt"].(string))
+	saltHex, err := kdfParamString(cryptoJSON.KDFParams, "salt")
 	if err != nil {
 		return nil, err
 	}
-	dkLen := ensureInt(cryptoJSON.KDFParams["dklen"])
+	salt, err := hex.DecodeString(saltHex)
+	if err != nil {
+		return nil, err
+	}
+	dkLen, err := kdfParamInt(cryptoJSON.KDFParams, "dklen")
+	if err != nil {
+		return nil, err
+	}
+	if dkLen < 32 {
+		return nil, fmt.Errorf("unsupported derived key length: %d", dkLen)
+	}
 
 	if cryptoJSON.KDF == keyHeaderKDF {
-		n := ensureInt(cryptoJSON.KDFParams["n"])
-		r := ensureInt(cryptoJSON.KDFParams["r"])
-		p := ensureInt(cryptoJSON.KDFParams["p"])
+		n, err := kdfParamInt(cryptoJSON.KDFParams, "n")
+		if err != nil {
+			return nil, err
+		}
+		r, err := kdfParamInt(cryptoJSON.KDFParams, "r")
+		if err != nil {
+			return nil, err
+		}
+		p, err := kdfParamInt(cryptoJSON.KDFParams, "p")
+		if err != nil {
+			return nil, err
+		}
 		return scrypt.Key(authArray, salt, n, r, p, dkLen)
 
 	} else if cryptoJSON.KDF == "pbkdf2" {
-		c := ensureInt(cryptoJSON.KDFParams["c"])
-		prf := cryptoJSON.KDFParams["prf"].(string)
+		c, err := kdfParamInt(cryptoJSON.KDFParams, "c")
+		if err != nil {
+			return nil, err
+		}
+		prf, err := kdfParamString(cryptoJSON.KDFParams, "prf")
+		if err != nil {
+			return nil, err
+		}
 		if prf != "hmac-sha256" {
 			return nil, fmt.Errorf("Unsupported PBKDF2 PRF: %s", prf)
 		}
